@@ -221,7 +221,7 @@ fn mk_ctr64be_b8(key: [u8; 2], iv: &[u8; 8]) -> ctr::Ctr64BE<UfE<U8, U1>> { ctr:
 fn mk_ctr64le_b8(key: [u8; 2], iv: &[u8; 8]) -> ctr::Ctr64LE<UfE<U8, U2>> { ctr::Ctr64LE::new(&key.into(), blk::<U8>(iv)) }
 fn mk_ctr128be_b16(key: [u8; 2], iv: &[u8; 16]) -> ctr::Ctr128BE<UfE<U16, U2>> { ctr::Ctr128BE::new(&key.into(), blk::<U16>(iv)) }
 fn mk_ctr128le_b16(key: [u8; 2], iv: &[u8; 16]) -> ctr::Ctr128LE<UfE<U16, U1>> { ctr::Ctr128LE::new(&key.into(), blk::<U16>(iv)) }
-fn mk_belt(key: [u8; 2], iv: &[u8; 16]) -> belt_ctr::BeltCtr<UfE<U16, U2>> { belt_ctr::BeltCtr::new(&key.into(), blk::<U16>(iv)) }
+fn mk_belt(key: [u8; 2], iv: &[u8; 16]) -> belt_ctr::BeltCtr<UfE<U16, U2>> { crate::common::belt_alias::<U2>(key, iv) }
 
 // ---- quick -----------------------------------------------------------------------------------
 block_prop!(cbc_b2_w3_n4_j1, 48, cbc::Decryptor, 0, U2, 2, U2, 2, U3, 4, 1);
